@@ -149,6 +149,25 @@ def bigalloc_quota_lostfound(src, img):
     return ["bigalloc+quota: the inode of a directory holding 2000 fifos cleared (clri d)"]
 
 
+def uninit_bit_case(src, base, img):
+    """the listed known finding: the on-disk bit of an inode bitmap block that flex_bg placed in an initialised group for a
+    BLOCK_UNINIT group is cleared (the bitmap checksum is left as it was)"""
+    fs = Fs(base)
+    shutil.copy(base, img)
+    for g2, gd2 in enumerate(fs.groups):
+        b = gd2["inode_bitmap"]
+        g = (b - fs.first_data_block) // fs.blocks_per_group
+        if gd2["flags"] & extfmt.BG_BLOCK_UNINIT and g != g2 and not fs.groups[g]["flags"] & extfmt.BG_BLOCK_UNINIT:
+            bit = b - fs.group_first_block(g)
+            with open(img, "r+b") as f:
+                f.seek(fs.groups[g]["block_bitmap"] * fs.bs + bit // 8)
+                c = f.read(1)[0]
+                f.seek(-1, 1)
+                f.write(bytes([c & ~(1 << (bit % 8))]))
+            return ["block bitmap of group %d, bit %d cleared (inode bitmap of group %d, BLOCK_UNINIT)" % (g, bit, g2)]
+    return ["nothing"]
+
+
 def hash_flag_case(src, img, alg):
     """an indexed directory whose names contain bytes >= 0x80, built under the signed-char hash; then the superblock says
     unsigned (checksum valid): most names now lie outside the hash range of their leaf"""
@@ -202,6 +221,10 @@ def one_case(src, idx, seed, tier, keep=False):
         alg = ["tea", "half_md4", "legacy"][idx - (nd + 4 + 2 * len(corrupt.PAIRS) + 4 + len(corrupt.ORPHAN_VARIANTS) + 1)]
         name, opts, size = "ext4_hash_" + alg, ["-t", "ext4", "-b", "1024", "-N", "1024"], "8M"
         desc = hash_flag_case(src, img, alg)
+    elif idx == nd + 4 + 2 * len(corrupt.PAIRS) + 4 + len(corrupt.ORPHAN_VARIANTS) + 4:
+        name, opts, size = [c for c in corrupt.IMG_CONFIGS if c[0] == "ext4_metabg48"][0]
+        base = corrupt.build_image(src, WORK, name, opts, size, 1)
+        desc = uninit_bit_case(src, base, img)
     else:
         desc = corrupt.corrupt(base, img, r)
     recipe = {"base": name, "mke2fs": opts, "size": size, "build_seed": 1 + (idx // 200) % 3, "case_index": idx, "operators": desc}
